@@ -861,4 +861,140 @@ Proof.
   rewrite scan_tokens_sealed; [|apply Forall_flat_map_sealed; exact Hall|lia].
   cbn [bind]. apply read_tokens_all. exact Hall.
 Qed.
+
+(* ---- rawSegToNode ------------------------------------------------------------------------------------------- *)
+Lemma cfg_ascii : Forall ascii_byte H.
+Proof. destruct Hcfg as (_ & _ & _ & Ha & _). exact Ha. Qed.
+
+Lemma cfg_rel_ok : rel_ok H esc.
+Proof.
+  unfold rel_ok. destruct esc as [|e0 er] eqn:Ee; [exact I|].
+  assert (esc <> []) as He by (rewrite Ee; discriminate).
+  pose proof (esc_sp He) as Hes. rewrite Ee in Hes. split.
+  - destruct (head_in _ Hes) as (x0 & xt & Hx & Hin). inversion Hx; subst. apply is_head_In. exact Hin.
+  - intros b Hb. apply not_head. apply (tail_not_head (e0 :: er) b Hes). exact Hb.
+Qed.
+
+Lemma unescape_E d : unescape (E d) esc = Ok d.
+Proof. apply unescape_escape; [apply cfg_ascii|apply cfg_rel_ok]. Qed.
+
+Section Decl.
+Variable k : nat.
+Variable d : edecl.
+Let idx := d_index d.
+Let ci := comp_index d.
+
+Lemma matching_app r1 r2 :
+  matching esc k d (r1 ++ r2) =
+  bind (matching esc k d r1) (fun a => bind (matching esc k d r2) (fun b => Ok (a ++ b))).
+Proof.
+  induction r1 as [|e r1 IH]; cbn [app matching].
+  - cbn [bind]. destruct (matching esc k d r2); reflexivity.
+  - destruct (Nat.eqb (re_ei e) (d_index d) && Nat.eqb (re_ci e) (comp_index d)).
+    + destruct (unescape (re_data e) esc) as [txt| |]; cbn [bind]; try reflexivity.
+      rewrite IH. destruct (matching esc k d r1) as [a| |]; cbn [bind]; try reflexivity.
+      destruct (matching esc k d r2) as [b| |]; reflexivity.
+    + exact IH.
+Qed.
+
+(* the values the declaration selects from one element *)
+Definition lk (e : lelem) : list bytes :=
+  match ci with
+  | O => []
+  | S j => flat_map (fun r => match nth_error r j with Some v => [v] | None => [] end) e
+  end.
+
+Lemma matching_comps i : forall r j,
+  matching esc k d (comps_of i j (map E r)) =
+  Ok (if Nat.eqb i idx && (j <? ci)
+      then match nth_error r (ci - 1 - j) with Some v => [(k, v)] | None => [] end
+      else []).
+Proof.
+  induction r as [|v r IH]; intros j.
+  - cbn [map comps_of matching]. destruct (Nat.eqb i idx && (j <? ci)); [|reflexivity].
+    destruct (ci - 1 - j); reflexivity.
+  - cbn [map comps_of matching re_ei re_ci re_data]. fold idx ci. rewrite IH.
+    destruct (Nat.eqb i idx) eqn:Ei; cbn [andb]; [|reflexivity].
+    destruct (Nat.eqb (S j) ci) eqn:Ej.
+    + apply Nat.eqb_eq in Ej. rewrite unescape_E. cbn [bind].
+      assert (S j <? ci = false) as -> by (apply Nat.ltb_ge; lia).
+      assert (j <? ci = true) as -> by (apply Nat.ltb_lt; lia).
+      replace (ci - 1 - j) with 0 by lia. reflexivity.
+    + apply Nat.eqb_neq in Ej. destruct (j <? ci) eqn:Ej2.
+      * apply Nat.ltb_lt in Ej2. assert (S j <? ci = true) as -> by (apply Nat.ltb_lt; lia).
+        replace (ci - 1 - j) with (S (ci - 1 - S j)) by lia. reflexivity.
+      * apply Nat.ltb_ge in Ej2. assert (S j <? ci = false) as -> by (apply Nat.ltb_ge; lia). reflexivity.
+Qed.
+
+Lemma matching_elem i e :
+  matching esc k d (exp_elem c i e) = Ok (if Nat.eqb i idx then map (fun v => (k, v)) (lk e) else []).
+Proof.
+  unfold exp_elem, lk. induction e as [|r e IH]; cbn [flat_map].
+  - cbn [matching]. destruct (Nat.eqb i idx); [destruct ci|]; reflexivity.
+  - rewrite matching_app, IH. unfold exp_rep.
+    change (escape (heads (specials c)) (optb (c_rel c))) with E. rewrite matching_comps.
+    cbn [bind]. f_equal. destruct (Nat.eqb i idx); cbn [andb]; [|reflexivity].
+    destruct ci as [|j]; [reflexivity|].
+    assert (0 <? S j = true) as -> by reflexivity. replace (S j - 1 - 0) with j by lia.
+    cbn [flat_map]. rewrite map_app. destruct (nth_error r j); reflexivity.
+Qed.
+
+Lemma matching_elems : forall s i,
+  matching esc k d (exp_elems c i s) =
+  Ok (map (fun v => (k, v)) (if i <=? idx then lk (nth (idx - i) s []) else [])).
+Proof.
+  induction s as [|e s IH]; intros i.
+  - cbn [exp_elems matching]. destruct (i <=? idx); [|reflexivity].
+    destruct (idx - i); unfold lk; destruct ci; reflexivity.
+  - cbn [exp_elems]. rewrite matching_app, matching_elem, IH. cbn [bind]. f_equal.
+    destruct (Nat.eqb i idx) eqn:Ei.
+    + apply Nat.eqb_eq in Ei. assert (S i <=? idx = false) as -> by (apply Nat.leb_gt; lia).
+      assert (i <=? idx = true) as -> by (apply Nat.leb_le; lia).
+      replace (idx - i) with 0 by lia. cbn [nth map]. apply app_nil_r.
+    + apply Nat.eqb_neq in Ei. destruct (i <=? idx) eqn:El.
+      * apply Nat.leb_le in El. assert (S i <=? idx = true) as -> by (apply Nat.leb_le; lia).
+        replace (idx - i) with (S (idx - S i)) by lia. reflexivity.
+      * apply Nat.leb_gt in El. assert (S i <=? idx = false) as -> by (apply Nat.leb_gt; lia). reflexivity.
+Qed.
+
+Lemma matching_lookup s : matching esc k d (exp_elems c 0 s) = Ok (map (fun v => (k, v)) (lookup s d)).
+Proof.
+  rewrite matching_elems. cbn [Nat.leb]. rewrite Nat.sub_0_r. reflexivity.
+Qed.
+End Decl.
+
+(* edi_elem_nodes, for every list of element declarations (duplicates included) *)
+Lemma elem_nodes s : forall decls k,
+  seg_to_node esc k decls (exp_elems c 0 s) = Ok (exp_nodes k decls s).
+Proof.
+  induction decls as [|d ds IH]; intros k; [reflexivity|].
+  cbn [seg_to_node exp_nodes]. rewrite matching_lookup. cbn [bind].
+  destruct (lookup s d) as [|v vs]; cbn [map].
+  - destruct (d_empty_if_missing d || match d_default d with Some _ => true | None => false end); [|reflexivity].
+    rewrite IH. reflexivity.
+  - rewrite IH. cbn [bind]. destruct (exp_nodes (S k) ds s); reflexivity.
+Qed.
+
+Lemma full_results_enc sname decls : forall segs,
+  (forall x, In x segs -> E (seg_name (ls_seg x)) = sname) ->
+  full_results esc sname decls (map (fun x => exp_seg c (ls_seg x)) segs) =
+  Ok (exp_full decls (map ls_seg segs)).
+Proof.
+  induction segs as [|x segs IH]; intro Hn; [reflexivity|].
+  cbn [map full_results exp_seg exp_full]. fold E.
+  change (escape (heads (specials c)) (optb (c_rel c))) with E.
+  rewrite (Hn x (or_introl eq_refl)).
+  assert (bytes_eqb sname sname = true) as -> by (apply bytes_eqb_eq; reflexivity). cbn [negb].
+  rewrite elem_nodes. cbn [bind]. destruct (exp_nodes 0 decls (ls_seg x)); [|reflexivity].
+  rewrite IH by (intros y Hy; apply Hn; right; exact Hy). reflexivity.
+Qed.
+
+Lemma full_roundtrip segs inp sname decls : Forall segx_ok segs ->
+  (forall x, In x segs -> E (seg_name (ls_seg x)) = sname) ->
+  (if c_ignore_crlf c then strip_crlf inp else inp) = edi_encode c segs ->
+  full_read_all c sname decls inp = Ok (exp_full decls (map ls_seg segs)).
+Proof.
+  intros Hall Hn Hin. unfold full_read_all. rewrite (roundtrip segs inp Hall Hin). cbn [bind].
+  apply full_results_enc. exact Hn.
+Qed.
 End RT.
